@@ -11,7 +11,7 @@ Proof.
   destruct (negb _); [reflexivity|].
   destruct (decode_meta _) as [m|]; [|reflexivity].
   destruct (decode_journal _ _ _) as [[[jgen jslot] jexts]|]; [|reflexivity].
-  destruct (bind _ _) as [st2| |]; try reflexivity.
+  destruct (bind _ _) as [[st2 nl]| |]; try reflexivity.
   cbn iota beta. simpl negb. cbv iota.
   destruct (rs_last_end st2 <? _); [|reflexivity].
   destruct (fs_release st2 _ _); reflexivity.
